@@ -83,7 +83,13 @@ def direct_session(R, hist, mini, multi, shape, repkind):
             tracker.evaluator.evaluate(problem, [R.choice(batch)])
         events.append({"e": "present", "ids": [ids.of(x) for x in batch]})
         tracker.evaluate(batch)
-        events.append({"e": "endpresent", "ids": [ids.of(x) for x in batch]})
+        if multi:
+            fr = tracker.get_best_individuals()
+            bagg = int(fr[0].get_fitness(problem).maximizing_aggregate) if fr else -(10 ** 6)
+        else:
+            bi = tracker.get_best_individual()
+            bagg = int(bi.get_fitness(problem).maximizing_aggregate) if bi is not None else -(10 ** 6)
+        events.append({"e": "endpresent", "ids": [ids.of(x) for x in batch], "bestagg": bagg})
         presented += [x for x in batch if x not in presented]
     return events, base_cfg(mini, multi, "direct")
 
